@@ -2,7 +2,7 @@ import MayVerif.Proof.Io.Inv
 namespace MayVerif.Io
 
 set_option maxHeartbeats 8000000 in
-theorem inv2_ustep (st st' : St) (c : Co) (pc : UPc) (e : Env) (h : Inv1 st) (h2 : Inv2 st)
+theorem inv2_ustep (st st' : St) (c : Co) (pc : UPc) (e : Env) (hc : Cfg st) (h : Inv1 st) (h2 : Inv2 st)
     (hpc : st.upc c = pc) (hs : ustep st c pc e = some st') : Inv2 st' := by
   prep2
   have hu1 := u1 c; have hk0n := k0 st.nk; have hj1 := j1 c
@@ -22,6 +22,6 @@ theorem inv2_ustep (st st' : St) (c : Co) (pc : UPc) (e : Env) (h : Inv1 st) (h2
 
 theorem inv2_estep (st st' : St) (e : Env) (h2 : Inv2 st) (hs : estep st e = some st') : Inv2 st' := by
   obtain ⟨k1, j1, j2⟩ := h2
-  cases e <;> simp only [estep] at hs <;> first | contradiction | (simp only [Option.some.injEq] at hs; subst hs; constructor <;> (try simp only []) <;> grind)
+  cases e <;> simp only [estep] at hs <;> (repeat' (split at hs)) <;> first | contradiction | (simp only [Option.some.injEq] at hs; subst hs; constructor <;> (try simp only []) <;> grind)
 
 end MayVerif.Io
